@@ -201,6 +201,32 @@ fn types_for<H: hbs_lms::HashChain>(alg: Alg, wv: u32, r: &mut Report, rng: &mut
             vh::generate_child_seed_and_lms_tree_identifier::<H>(&parent, &3),
             |v: &vh::SeedAndLmsTreeIdentifier<H>| v.seed.as_slice().iter().all(|b| *b == 0)
         );
+        // the same type loaded from key bytes, including bytes whose parameter block is all end
+        // markers (a key that "looks wiped" but carries a seed) and a default value with a seed put in
+        for (ty, params) in [("ReferenceImplPrivateKey(loaded)", [0x54u8, 0x54, 0xff, 0xff, 0xff, 0xff, 0xff, 0xff]), ("ReferenceImplPrivateKey(loaded, end-marker parameters)", [0xffu8; 8])] {
+            let mut blob = vec![0u8; 8];
+            blob[7] = 3;
+            blob.extend_from_slice(&params);
+            blob.extend_from_slice(&seed_bytes);
+            if vh::ReferenceImplPrivateKey::<H>::from_binary_representation(&blob).is_ok() {
+                let mut o = Obs { r, alg, ty, w: 0 };
+                check_type!(
+                    o,
+                    &secrets,
+                    vh::ReferenceImplPrivateKey::<H>::from_binary_representation(&blob).unwrap(),
+                    |v: &vh::ReferenceImplPrivateKey<H>| v.seed.as_slice().iter().all(|b| *b == 0)
+                );
+            }
+        }
+        {
+            let make = || {
+                let mut k = vh::ReferenceImplPrivateKey::<H>::default();
+                k.seed = seed_of::<H>(&seed_bytes);
+                k
+            };
+            let mut o = Obs { r, alg, ty: "ReferenceImplPrivateKey(default + seed)", w: 0 };
+            check_type!(o, &secrets, make(), |v: &vh::ReferenceImplPrivateKey<H>| v.seed.as_slice().iter().all(|b| *b == 0));
+        }
         let mut o = Obs { r, alg, ty: "ReferenceImplPrivateKey", w: 0 };
         check_type!(
             o,
